@@ -5,6 +5,9 @@
 
 #include <etl/_config/all.hpp>
 
+#include <etl/_bit/bit_cast.hpp>
+#include <etl/_cstdint/uint_t.hpp>
+#include <etl/_type_traits/conditional.hpp>
 #include <etl/_type_traits/is_constant_evaluated.hpp>
 
 namespace etl {
@@ -14,7 +17,13 @@ namespace detail {
 template <typename T>
 [[nodiscard]] constexpr auto signbit_fallback(T arg) noexcept -> bool
 {
-    return arg == T(-0.0) || arg < T(0);
+    if constexpr (sizeof(T) == 4U or sizeof(T) == 8U) {
+        // read the sign bit: also right for zeros and NaNs
+        using U = etl::conditional_t<sizeof(T) == 4U, etl::uint32_t, etl::uint64_t>;
+        return (etl::bit_cast<U>(arg) >> (sizeof(U) * 8U - 1U)) != 0;
+    } else {
+        return signbit_fallback(static_cast<double>(arg)); // the conversion keeps the sign
+    }
 }
 
 } // namespace detail
